@@ -126,12 +126,33 @@ def midi_bend_sweep(sid, ch, lo, hi, step):
     return Script(sid, ops, {"module": "midi", "family": "bend-sweep"})
 
 
+def midi_repeat_after_reset(rng, sid):
+    """set controllers / pitch bend, CC 121 (maybe with a note held), then the SAME values again"""
+    ch = rng.randrange(16)
+    ops = ["midi.new %d" % ch]
+    msgs = []
+    for _ in range(rng.randrange(1, 5)):
+        if rng.random() < 0.5:
+            msgs.append([0xE0 | ch, rng.randrange(128), rng.choice([0, 127, 64, rng.randrange(128)])])
+        else:
+            msgs.append([0xB0 | ch, rng.choice([1, 7, 71, 74, 5, 65, 64]), rng.choice([0, 127, 63, 64, rng.randrange(128)])])
+    if rng.random() < 0.5:
+        msgs.insert(rng.randrange(len(msgs) + 1), [0x90 | ch, 60, 100])
+    seq = msgs + [[0xB0 | ch, 121, rng.choice([0, 127])]] + msgs + msgs
+    for m in seq:
+        for b in m:
+            ops.append("b %d" % b)
+    return Script(sid, ops, {"module": "midi", "family": "repeat-after-reset"})
+
+
 def midi_scripts(rng, n_struct, n_raw, cc=False):
     res = []
     for i in range(n_struct):
         res.append(midi_structured(rng, "midi-s%d" % i, rng.randrange(10, 120), held_heavy=(i % 7 == 0)))
     for i in range(n_raw):
         res.append(midi_raw(rng, "midi-r%d" % i, rng.randrange(20, 300)))
+    for i in range(max(n_struct // 10, 6)):
+        res.append(midi_repeat_after_reset(rng, "midi-rr%d" % i))
     if cc:
         res.append(midi_cc_all("midi-ccall", rng.randrange(16)))
         for c in (1, 7, 71, 74, 5, 65, 64):
@@ -530,6 +551,27 @@ def adsr_special_params(rng, sid):
     return Script(sid, ops, {"module": "adsr", "family": "special-params", "fs": fs})
 
 
+def adsr_retrigger_cycle(rng, sid):
+    """notes that re-trigger at a non-zero level, run down to rest, and start again from rest"""
+    fs = rng.choice([1000.0, 1000.0, 44100.0, 100.0])
+    t = max(0.002, rng.choice([20.0, 50.0, 100.0]) / fs)
+    n = int(t * fs) + 3
+    ops = ["adsr.new " + hx(fs), "att " + hx(t), "dec " + hx(t), "rel " + hx(t), "sus " + hx(rng.choice([0.5, 0.3, 0.8]))]
+    for _ in range(rng.randrange(1, 3)):
+        ops.append("gon")
+        ops += ["tick"] * rng.choice([n // 2, n + n // 3, 2 * n + 5])
+        if rng.random() < 0.7:
+            ops.append("goff")
+            ops += ["tick"] * rng.choice([n // 3, n // 2])
+        ops.append("gon")              # re-trigger at a non-zero level
+        ops += ["tick"] * rng.choice([n // 2, 2 * n + 5])
+        ops.append("goff")
+        ops += ["tick"] * (n + 5)      # all the way down to rest
+    ops.append("gon")                  # a new note from rest
+    ops += ["tick"] * (n // 2)
+    return Script(sid, ops, {"module": "adsr", "family": "retrigger-cycle", "fs": fs})
+
+
 def adsr_scripts(rng, n_hist, n_phase, n_ext):
     res = [adsr_script(rng, "adsr-h%d" % i, rng.randrange(100, 700)) for i in range(n_hist)]
     configs = [(1000.0, 0.1), (512.0, 2.0 ** -9), (999.0, 0.001), (100.0, 0.001), (1000.0, 0.001), (48000.0, 0.001),
@@ -549,6 +591,8 @@ def adsr_scripts(rng, n_hist, n_phase, n_ext):
         res.append(adsr_slowest(rng, "adsr-slowest%d" % i))
     for i in range(max(n_ext, 6)):
         res.append(adsr_special_params(rng, "adsr-sp%d" % i))
+    for i in range(max(n_hist // 4, 5)):
+        res.append(adsr_retrigger_cycle(rng, "adsr-rc%d" % i))
     for i in range(n_ext):
         res.append(adsr_script(rng, "adsr-x%d" % i, rng.randrange(50, 300), legal=False))
     return res
